@@ -197,6 +197,7 @@ pub fn run_check(ctx: &Ctx) -> i32 {
                 for s in std::iter::once(&Sched::whole()).chain(scheds.iter()) {
                     let (m, calls, nt) = check_bytes(p, &input, s);
                     ctx.exec(calls);
+                    ctx.outcomes.insert(digest(&(calls, nt, m.is_some(), p.cfg.handlers.len())));
                     ctx.validated(1);
                     if nt {
                         ctx.nontrivial.insert(digest(&input));
